@@ -134,6 +134,10 @@ func (s *Heatmap) WriteHeader(colNames ...string) (colCount int) {
 		}
 
 		sb.WriteString(underlineHeaderChar(name, 0))
+		if nameLen == 0 { // a key without a visible rune still occupies its column
+			sb.WriteRune(delim)
+			nameLen = 1
+		}
 		i += nameLen
 	}
 
